@@ -418,12 +418,14 @@ def _worker_run(case):
     global _ALARM_FIRED
     t = getattr(_PROP, 'CASE_TIMEOUT', 10) * _TSCALE
     _ALARM_FIRED = False
-    signal.alarm(int(t))
+    # the timer keeps firing every second after the limit: a bare `except:` inside a loop of the code under test can
+    # swallow one CaseTimeout, not all of them
+    signal.setitimer(signal.ITIMER_REAL, float(t), 1.0)
     try:
         try:
             r = _PROP.run_impl(case)
         finally:
-            signal.alarm(0)
+            signal.setitimer(signal.ITIMER_REAL, 0)
         if _ALARM_FIRED:
             # the alarm went off but was swallowed inside the code under test: whatever came back was computed by an
             # interrupted run and is not an observation
@@ -445,14 +447,19 @@ def run_impl_cases(modname, cases, procs=None, tscale=1, recheck_hangs=True):
     chunk = max(1, min(50, len(cases) // (procs * 4) or 1))
     with ctx.Pool(procs, initializer=_worker_init, initargs=(modname, tscale)) as pool:
         out = pool.map(_worker_run, cases, chunksize=chunk)
-    # a time-out on a loaded machine is not evidence of non-termination: every case that timed out is run again,
-    # few at a time, with a ten-fold limit, and only a second time-out is reported as a hang
+    # a time-out on a loaded machine is not evidence of non-termination: cases that timed out are run again, 24 at a
+    # time on few processes with a six-fold limit, and only a second time-out is reported as a hang.  As soon as one
+    # batch still contains a time-out the non-termination is real (it is reported with that case) and the remaining
+    # ones are left as they are, so that a change which makes many cases loop does not cost hours.
     if recheck_hangs:
         idx = [i for i, o in enumerate(out) if isinstance(o, list) and o[:1] == ['hang'] and o[1:2] != ['recursion']]
-        if idx and len(idx) <= 200:
-            again = run_impl_cases(modname, [cases[i] for i in idx], procs=min(4, procs), tscale=tscale * 10, recheck_hangs=False)
-            for i, o in zip(idx, again):
+        while idx:
+            batch, idx = idx[:24], idx[24:]
+            again = run_impl_cases(modname, [cases[i] for i in batch], procs=min(8, procs), tscale=tscale * 6, recheck_hangs=False)
+            for i, o in zip(batch, again):
                 out[i] = o
+            if any(isinstance(o, list) and o[:1] == ['hang'] for o in again):
+                break
     return out
 
 
